@@ -13,7 +13,7 @@ Section Crit.
 
   (* DecBand: mask_dec[k, j] *)
   Definition dec_crit (delta sdec edec : T) : bool :=
-    db_mask_dec N edec (db_dec_minus N sdec delta) (db_dec_plus N sdec delta).
+    db_mask_dec N edec sdec delta.
 
   (* RABand: mask_ra[k, j] *)
   Definition rb_half (delta sdec : T) : T :=
@@ -29,7 +29,7 @@ Section Crit.
   Definition box_ra_crit_b (delta sra sdec era : T) : bool :=
     sb_b_mask_ra N (sb_b_ra_mod N (sb_b_ra_diff N era sra)) (sb_half delta sdec).
   Definition box_dec_crit (delta sdec edec : T) : bool :=
-    sb_mask_dec N edec (sb_dec_minus N sdec delta) (sb_dec_plus N sdec delta).
+    sb_mask_dec N edec sdec delta.
 
   (* utils/coords.angular_separation (psi_floor = None) *)
   Definition angsep (ra1 dec1 ra2 dec2 : T) : T :=
